@@ -615,16 +615,19 @@ func coordinator(prop, tier string) int {
 	}
 	fmt.Printf("%s %s: units=%d executions=%d states=%d transitions=%d distinct_outcomes=%d bound_completed=%d exhaustive=%v known=%d new=%d wall=%.1fs\n",
 		prop, tier, len(units), execs, sigs, points, outcomes, minBound, exhaustive, len(knownV), len(newV), wall)
-	if len(infra) > 0 {
-		for i, e := range infra {
-			if i < 10 {
-				fmt.Fprintln(os.Stderr, "harness error:", short(e, 600))
-			}
+	for i, e := range infra {
+		if i < 10 {
+			fmt.Fprintln(os.Stderr, "harness error:", short(e, 600))
 		}
-		return 2
 	}
 	if len(newV) > 0 {
+		// every reported violation was reproduced from its recorded schedule; harness errors next to it
+		// (e.g. replay divergence caused by state the change under test leaks between executions) do
+		// not take the finding back
 		return 1
+	}
+	if len(infra) > 0 {
+		return 2
 	}
 	return 0
 }
